@@ -225,9 +225,12 @@ def run_job(job):
         toks = obs.get("op_tokens") or []
         at_rec = next((t for t in toks if t["class"] == "access_token" and t["value"] == at), None) if at else None
         idt_rec = next((t for t in toks if t["class"] == "id_token" and t["value"] == obs["raw_id_token"]), None)
+        # idt_exp: the expiry the provider WROTE INTO the ID Token; idt_exp_recorded: what its session database holds
+        issued_exp = p.get("exp") if kind == "jws" else (fin.get("id_token") or {}).get("exp")
         rec["session"] = {"client": g.get("client_id"), "sub": g.get("sub"), "scope": scope_list(g.get("scope")),
                           "nonce": g.get("nonce"), "at_exp": at_rec["expires_at"] if at_rec else None,
-                          "idt_exp": idt_rec["expires_at"] if idt_rec else None,
+                          "idt_exp": issued_exp,
+                          "idt_exp_recorded": idt_rec["expires_at"] if idt_rec else None,
                           "at_scope": scope_list(at_rec["scope"]) if at_rec else None,
                           "user": g.get("user_id")}
         tt = obs.get("token_times") or []
@@ -323,16 +326,19 @@ def coq_views_case(rec):
 
     def vo(name):
         return "(Some %s)" % coq_view(vs[name]) if name in vs else "(@None view)"
-    return "(mkViewsCase %s %s %s %s %s %s %s %s %s %s %s)" % (
+    ops = {"client": s["client"], "sub": s["sub"], "scope": s["scope"], "nonce": s["nonce"],
+           "at_exp": s["at_exp"], "idt_exp": s["idt_exp_recorded"]}
+    return "(mkViewsCase %s %s %s %s %s %s %s %s %s %s %s %s)" % (
         coq_bool(rec["has_token"]), coq_bool(rec["cell"]["at_jwt"]), sess, coq_z(rec["now_op"]), coq_z(rec["now_rp"]),
-        vo("token_response"), vo("introspection"), vo("userinfo"), coq_view(vs["id_token"]), coq_view(vs["rp"]),
+        coq_view(ops), vo("token_response"), vo("introspection"), vo("userinfo"), coq_view(vs["id_token"]), coq_view(vs["rp"]),
         vo("jwt_access_token"))
 
 
 def views_case_ok(rec):
     s = rec.get("session") or {}
     return (all(isinstance(s.get(k), str) for k in ("client", "sub")) and isinstance(s.get("scope"), list)
-            and isinstance(s.get("idt_exp"), int) and (not rec["has_token"] or isinstance(s.get("at_exp"), int)))
+            and isinstance(s.get("idt_exp"), int) and isinstance(s.get("idt_exp_recorded"), int)
+            and (not rec["has_token"] or isinstance(s.get("at_exp"), int)))
 
 
 # ------------------------------------------------------------------ the oracle (property text; no model)
@@ -345,6 +351,7 @@ def spec_mode_allowed(rt, rm):
 
 
 FAIL_SIGS = [
+    ('wrong type of value for "redirect_uri"', "redirect-uri-not-a-string"),   # the repaired pick_redirect_uri defect (37f56f5)
     ("Could not sign/encrypt id_token", "hs-sign:id_token"),
     ("NoSuitableSigningKeys", "hs-sign:userinfo"),
     ("wrapping key must be a valid AES key length", "kw-secret-length"),
@@ -379,6 +386,9 @@ def oracle(ctx, rec, T):
             if needle in out["detail"]:
                 sig = s
                 break
+        if c["transport"] == "par" and rec["claims"] is not None and out["where"] == "authz_process" and (
+                sig is None or "KeyError: 'response_mode'" in out["detail"]):
+            sig = "par-claims-not-parsed"     # without a response_mode the error path itself raises KeyError
         if sig is None:
             sig = "fail:%s" % out["where"]
         ctx.violation(sig, "flow does not complete (stops at %s: %s) for a combination both halves advertise: %s "
@@ -447,7 +457,7 @@ def oracle(ctx, rec, T):
     vs = dict(rec["views"])
     s = rec["session"]
     vs["op_session"] = {"client": s["client"], "sub": s["sub"], "scope": s["scope"], "nonce": s["nonce"],
-                        "at_exp": s["at_exp"], "idt_exp": s["idt_exp"]}
+                        "at_exp": s["at_exp"], "idt_exp": s["idt_exp_recorded"]}
     if s.get("at_scope") is not None:
         vs["op_access_token"] = {"scope": s["at_scope"]}
     skew = rec["now_rp"] - rec["now_op"]
@@ -464,7 +474,10 @@ def oracle(ctx, rec, T):
                     if b == "rp":
                         y = y - skew
                 if x != y:
-                    ctx.violation("views:%s" % f, "%s differs between views: %s has %r, %s has %r (cell %s, scope %s)" % (
+                    sig = "views:%s" % f
+                    if f == "idt_exp" and "op_session" in (a, b) and vs["op_session"].get("idt_exp") == 0:
+                        sig = "idt-exp-unrecorded"     # the session database holds expires_at = 0 for this ID Token
+                    ctx.violation(sig, "%s differs between views: %s has %r, %s has %r (cell %s, scope %s)" % (
                         f, a, vs[a].get(f), b, vs[b].get(f), json.dumps(cellname, default=str), rec["scope"]), rec)
     # required views are present
     need = ["id_token", "rp"] + (["token_response", "userinfo", "introspection"] if rec["has_token"] else [])
@@ -777,7 +790,7 @@ def evaluate(ctx, recs, T):
                 ctx.mismatch("completed flow without a usable provider session record", small, impl=rec.get("session"))
     imports = ["Lib.Base", "Lib.PyStr", "Lib.InteropTy", "Gen.Supports", "Model.Interop"]
     ctx.coq_check_cases(imports, "cfg * inp * outcome", "chk_flow", flow_cases, shard=300, label="flow", diag="diag_flow")
-    ctx.coq_check_cases(imports, "views_case", "chk_views", view_cases, shard=150, label="views")
+    ctx.coq_check_cases(imports, "views_case", "chk_views", view_cases, shard=150, label="views", diag="diag_views")
 
 
 def run(ctx):
